@@ -31,7 +31,9 @@ EXPLANATION = (
     "tree of the C the generator emits for it (term built by gc0Builtin/gc0FCall/gc0Cop/gc0SIntMod, computed from their source "
     "for that tag, names resolved through foam_c.h by clang; expression form and statement-macro form); trees and rewrite list "
     "are those of C04. T5: in genc.c and ccode.c the value of every call that returns a CCode is used (assigned, passed on, "
-    "returned or tested) or explicitly cast to void; one frozen exception (frozen/c03_effect_calls.json). Not decided: equality of outputs on programs.")
+    "returned or tested) or explicitly cast to void; one frozen exception (frozen/c03_effect_calls.json). T6: the interpreter registers assigned by the expansion of "
+    "stackFrameFree (normal return) are all among the registers that fintSaveState stores and fintRestoreState reloads (the state "
+    "kept at a try block), and the two functions mention the same (field, register) pairs. Not decided: equality of outputs on programs.")
 
 FROZEN = os.path.join(os.path.dirname(__file__), "frozen")
 INTERP_CHAIN = ["fintStmt", "fintEval_", "fintGetReference"]
@@ -230,6 +232,53 @@ def t5(rep):
     rep.floor("calls returning a C fragment", total, 1500)
 
 
+def t6(rep):
+    """The interpreter's non-local exit (exception caught: fintRestoreState) restores every register that a normal return
+    (stackFrameFree) restores, and save/restore mirror each other."""
+    f = common.extract("fint.c", all_trees=True)
+    frame, nexp = set(), set()
+    for name, fn in f.funcs.items():
+        if "body" not in fn:
+            continue
+        for x in walk(fn["body"]):
+            if x["k"] == "BinaryOperator" and x["op"] == "=" and "stackFrameFree" in (x.get("mac"), x.get("imac")):
+                t = strip(x["c"][0])
+                if t is not None and t["k"] == "DeclRefExpr" and t.get("g"):
+                    frame.add(t["n"])
+                    nexp.add(name)
+    if len(frame) < 8:
+        raise AnalysisBroken("fint.c: expansion of stackFrameFree not found (registers restored on return: %s)" % sorted(frame))
+
+    def pairs(fname, save):
+        out = set()
+        for x in walk(f.func(fname)["body"]):
+            if x["k"] == "BinaryOperator" and x["op"] == "=":
+                a, b = strip(x["c"][0]), strip(x["c"][1])
+                fld, glob = (a, b) if save else (b, a)
+                if fld is not None and glob is not None and fld["k"] == "MemberExpr" and glob["k"] == "DeclRefExpr" and glob.get("g"):
+                    out.add((fld["n"], glob["n"]))
+        return out
+    saved, restored = pairs("fintSaveState", True), pairs("fintRestoreState", False)
+    if len(saved) < 8:
+        raise AnalysisBroken("fintSaveState: `state->field = register` assignments not recognised")
+    if saved == restored:
+        rep.ok("T6", "state:save-restore-mirror", sample={"registers": sorted(g for _, g in saved)})
+    else:
+        rep.violation("T6", "state:save-restore-mirror", "fint.c (fintSaveState / fintRestoreState)",
+                      "saved but not restored: %s; restored but not saved: %s" % (sorted(saved - restored), sorted(restored - saved)))
+    regs = {g for _, g in restored} & {g for _, g in saved}
+    for r in sorted(frame):
+        key = "state:covers-frame-register:%s" % r
+        if r in regs:
+            rep.ok("T6", key, nontrivial=False)
+        else:
+            rep.violation("T6", key, "fint.c (fintSaveState / fintRestoreState)",
+                          "a normal return restores the interpreter register '%s' (stackFrameFree) but the state saved at a try block "
+                          "and restored when an exception is caught does not contain it: after a caught exception the interpreter "
+                          "continues with the thrower's '%s', the compiled program with the catcher's" % (r, r))
+    rep.floor("interpreter registers restored by a normal return", len(frame), 12)
+
+
 def run(tier, only=None):
     rep = common.Report("C03", tier, EXPLANATION)
     f_fint = common.extract("fint.c", trees=INTERP_CHAIN + ["fintInitForeignGlobValue"])
@@ -239,6 +288,7 @@ def run(tier, only=None):
     t2(rep, f_foam, f_genc)
     t3(rep, f_fint)
     t5(rep)
+    t6(rep)
     try:
         t4(rep, tier)
     except AnalysisBroken as e:
